@@ -1030,8 +1030,9 @@ TRUSTED = [
     'final input_list, entry by entry)',
     'assignment solver: the model calls the integer instance of the Munkres model (computeZ, C06) on the costs D*(1 - grade), D a '
     'common denominator; its optimality on rational matrices is PROVED from C06\'s munkres_partial_correct (solveZ_optimal, '
-    'C05_solver_optimal), termination from munkres_terminates (C05_unordered_returns).  That the real code, which runs the solver on '
-    'the float costs 1 - grade, takes the same decisions as on the scaled integers (scale invariance; sys.maxsize is never reached) is '
+    'C05_solver_optimal), termination unconditionally from munkres_terminates (C05_unordered_returns: no bound on grades or on the '
+    'scaled costs).  That the real code, which runs the solver on '
+    'the float costs 1 - grade, takes the same decisions as on the scaled integers (scale invariance of every comparison / minimum / subtraction of the solver) is '
     'validated by the correspondence, not proved',
     'modelled, not verified: the subgraders (an arbitrary oracle in every theorem; the recorded results in the cases), IEEE '
     'rounding of 1 - grade, of sum/len in consolidate_grades, of the Munkres arithmetic and of numpy\'s row sums (runs in which every '
@@ -1052,7 +1053,7 @@ LEVEL_TEXT = ('Theorems about an executable model of ListGrader over an arbitrar
               'report a one-to-one assignment of inputs (groups) to answers whose total credit is maximal over all assignments (solver '
               'optimality on rational costs derived from C06, no hypothesis left); the reported answer list has maximal total over all '
               'alternative lists and all their assignments; partial_credit=False zeroes everything unless all entries are correct; '
-              'the unordered branch returns whenever the subgraders do (C06 termination).')
+              'the unordered branch always returns when the subgraders do (C06 termination for arbitrary integer matrices, no size or grade bound).')
 LEVEL_NOTE = ('Exact rational arithmetic; float effects (costs 1 - grade, averages, numpy sums) are covered by the correspondence and the '
               'oracle with tolerance 1e-9, not by theorems; trusted: Coq kernel, harness/props/c05.py; no axioms.')
 TECHNIQUE = 'Coq proof (induction on lists, permutations, Q arithmetic, C06 solver theorems) + vm_compute differential correspondence + exhaustive n! oracle'
